@@ -59,6 +59,21 @@ pub fn hostile_attr(rng: &mut Rng, marker: &str) -> String {
                 out.push(o);
                 body(rng, depth + 1, out);
                 out.push(c);
+            } else if rng.chance(0.06) {
+                // a word of the dictionary harvested from kiki's own sources: a format placeholder
+                // (`{node_enum_name}`, balanced, hence legal attribute text) or an identifier
+                let d = gtext::repo_dictionary();
+                if !d.placeholders.is_empty() && rng.chance(0.7) {
+                    let ph = rng.pick(&d.placeholders).clone();
+                    match rng.below(5) {
+                        0 => out.push_str(&format!("{{{ph}}}")),
+                        1 => out.push_str(&ph.replace('}', ":?}")),
+                        _ => out.push_str(&ph),
+                    }
+                } else if !d.camel.is_empty() {
+                    let w: &String = rng.pick(&d.camel);
+                    out.push_str(w);
+                }
             } else {
                 let p = rng.pick_str(PLAIN);
                 if p == "#[" {
@@ -142,7 +157,13 @@ fn render_with_attr_separators(m: &Model, rng: &mut Rng) -> String {
 }
 
 pub fn random_type(rng: &mut Rng, depth: usize) -> TypeExpr {
-    const SEGS: &[&str] = &["a", "B", "std", "crate", "Vec", "x1", "_y", "Option", "self_", "T", "u8", "__"];
+    const SEGS: &[&str] = &[
+        "a", "B", "std", "crate", "Vec", "x1", "_y", "Option", "self_", "T", "u8", "__",
+        // identifiers that *contain* keywords, primitive names, the emitter's vocabulary or the
+        // default names of the grammar's own symbols (textual substitution instead of token-wise copying)
+        "SelfRef", "ItSelf", "MySelf", "selfie", "Selfish", "crates", "Boxed", "UnBox", "NodeKind", "ANode", "TokKind", "MyTok", "Tok", "N0", "T0", "N1x", "XT0", "StateItem",
+        "EofMark", "Error", "Result", "usize_", "str", "String", "dyn_", "impl_", "Fn", "superb", "Type", "Quasiterminal", "Terminal",
+    ];
     let path = |rng: &mut Rng| -> Vec<String> { (0..*rng.pick(&[1usize, 1, 1, 2, 2, 3, 4, 6])).map(|_| rng.pick_str(SEGS).to_string()).collect() };
     match rng.below(10) {
         0..=1 => TypeExpr::Unit,
@@ -235,11 +256,32 @@ fn header_like_text(rng: &mut Rng) -> String {
         "// @sha256 abc  ", "// @sha256 abc\t", "// @sha2560", "//! x", "// @sha256 abc\r", "// @sha256  two", "//\t@sha256 x", "// @sha256 é", "\u{feff}// @sha256 x", "// @sha256", "//", "// ",
     ];
     let mut s = String::new();
+    if rng.chance(0.12) {
+        // a long banner in front: the hash line far down the comment block (line counts and byte
+        // offsets on thresholds), or very long lines
+        let k = *rng.pick(&[15usize, 16, 31, 32, 62, 63, 64, 65, 66, 99, 100, 127, 128, 129, 255, 256, 257, 1000, 4096, 65_536]);
+        let line = rng.pick_str(&["//", "// x", "//\t", "// @sha25", "//@sha256 q", "// é", "////", "//!", "// @sha256"]);
+        let eol = rng.pick_str(&["\n", "\n", "\r\n"]);
+        for _ in 0..k {
+            s.push_str(line);
+            s.push_str(eol);
+        }
+    } else if rng.chance(0.04) {
+        let k = *rng.pick(&[63usize, 64, 255, 256, 4095, 4096, 65_535, 65_536, 100_000]);
+        s.push_str("//");
+        s.push_str(&rng.pick_str(&["x", "é", " ", "/"]).repeat(k));
+        s.push('\n');
+    }
     for _ in 0..rng.range(1, 10) {
         s.push_str(rng.pick_str(FRAG));
         if rng.chance(0.5) {
             s.push('\n');
         }
+    }
+    if rng.chance(0.03) {
+        // a very long remainder after the prefix
+        let k = *rng.pick(&[64usize, 65, 128, 256, 4096, 65_536]);
+        s = format!("// @sha256 {}\n{s}", rng.pick_str(&["a", "0", "é", " "]).repeat(k));
     }
     s
 }
@@ -395,6 +437,12 @@ pub fn digest_main(path: &str) -> i32 {
 
 impl Text {
     fn c12(&self, w: &mut Worker, rng: &mut Rng, n: u64) {
+        {
+            let d = gtext::repo_dictionary();
+            w.max("dictionary:source-files-read", d.files_read as u64);
+            w.max("dictionary:format-placeholders", d.placeholders.len() as u64);
+            w.max("dictionary:identifiers", d.camel.len() as u64);
+        }
         let mut m = small_model(rng);
         let mut all: Vec<(String, String, Vec<String>)> = vec![]; // (decl kind, name, attrs)
         let mut counter = 0;
